@@ -42,6 +42,30 @@ def run(ctx, rep):
             rep.violation('C17.1', 'C17.1:%s:%s' % (fn, 'JoinAll' if 'JoinAll' in what else what.split('<')[0][-40:]),
                           b.where(bi), 'the result of `%s` in %s is dropped without being looked at: a backend error '
                           'is lost and the operation continues as if the request had succeeded' % (what[:140], fn))
+    # combinators that throw the error away
+    from ..errs import is_result_ty
+    DISCARD = {'Result::<T, E>::or': 1, 'Result::<T, E>::ok': 0, 'Result::<T, E>::unwrap_or': 0,
+               'Result::<T, E>::unwrap_or_default': 0}
+    nd = 0
+    for b in f.body_list:
+        if '::tests::' in b.path:
+            continue
+        for bi, t in b.calls():
+            fn = t.get('fn') or ''
+            for suf, ai in DISCARD.items():
+                if fn.endswith(suf) and ai < len(t['args']) and t['args'][ai]['k'] in ('copy', 'move'):
+                    tid = b.locals[t['args'][ai]['pl']['l']]
+                    if t['args'][ai]['pl']['p']:
+                        continue
+                    if is_result_ty(f, tid):
+                        nd += 1
+                        me = short(b.path)
+                        rep.ob('C17.1', '%s@%s %s' % (me, b.where(bi), suf.split('::')[-1]), False, 'error-discarding combinator')
+                        rep.violation('C17.1', 'C17.1:%s:%s' % (me, suf.split('::')[-1]), b.where(bi),
+                                      '%s applies `%s` to a Result<_, Qcow2Error>: %s - a backend error is lost and the operation '
+                                      'reports success' % (me, suf.split('::')[-1],
+                                                           'when the receiver is Ok the argument is dropped with its error' if ai == 1 else 'the error is thrown away'))
+    rep.ob('C17.1', 'error-discarding combinators (or / ok / unwrap_or / unwrap_or_default) on Qcow2 results', nd == 0, '%d call(s)' % nd)
     rep.floor('call sites scanned for dropped results', n_calls, 3000)
     from .. import errs
     rep.floor('result-producing calls/awaits whose def-use closure was followed', errs.EXAMINED[0], 150)
@@ -71,3 +95,6 @@ def run(ctx, rep):
     rep.ob('C17.4', 'releases of clusters taken from live mappings', not live, '%d release(s) precede the unmapping' % len(live) if live else 'every such release follows the unmapping')
     for k, v in sorted(live):
         rep.violation('C17.4', k.replace('C04.O4', 'C17.4'), v['where'], v['msg'], {'path': v['chain']})
+    from . import rollback
+    from ..interp import Program as _Prog
+    rollback.report(ctx.lib, _Prog(ctx.lib), rep, 'C17.5', ('restore', 'release'))
